@@ -28,9 +28,9 @@ CONSTANTS UndoOnFailure,  \* TRUE = derived in-memory state is changed only afte
           Emit
 
 Ops     == {"rb_commit", "wal_commit", "import", "halt", "recover", "drop", "backup_sync", "set_cluster_id",
-            "replica_apply", "replica_snapshot", "open"}
+            "replica_apply", "replica_snapshot", "open", "role_change"}
 Targets == {"rb", "rb_hot", "wal_frames", "wal_clean"}
-Kinds   == {"error", "unreadable", "unwritable", "notify", "cut"}   \* cut = the replication stream breaks after n bytes
+Kinds   == {"error", "unreadable", "unwritable", "notify", "cut", "lease"}   \* cut = the replication stream breaks after n bytes
 
 Applies(o, t) ==
   CASE o = "rb_commit"      -> t = "rb"
@@ -44,6 +44,7 @@ Applies(o, t) ==
     [] o = "replica_apply"    -> t \in {"rb", "wal_frames"}   \* a replica applies one streamed transaction file
     [] o = "replica_snapshot" -> t \in {"rb", "wal_frames"}   \* a replica is given a snapshot (it joins, or it left the history)
     [] o = "open"             -> TRUE                          \* the store is opened on an existing data directory (restart)
+    [] o = "role_change"      -> t \in {"rb_hot", "wal_frames"} \* a primary loses its lease through a failing renewal and becomes a replica
 
 \* the phases of each operation, in the order of the code
 Phases(o) ==
@@ -59,6 +60,7 @@ Phases(o) ==
     [] o = "replica_snapshot" -> <<"ltx_tmp", "publish", "remove_old_files", "apply", "setpos">>
     [] o = "open"             -> <<"read_header", "remove_shm", "trim_wal_to_ltx", "rollback_journal", "checkpoint",
                                    "init_checksums", "reapply_last_ltx">>
+    [] o = "role_change"      -> <<"renew", "cancel_primary_context", "rollback_journal", "checkpoint", "follow_new_primary">>
 
 \* phases whose failure stops the node on purpose (there is no way to tell SQLite / the state is half written)
 Fatal(o, ph) == \/ o = "wal_commit"
@@ -77,6 +79,7 @@ Publishing(o, ph) == \/ (o \in {"rb_commit", "wal_commit", "import", "drop", "re
                      \/ (o = "backup_sync" /\ ph = "upload")
                      \/ (o = "set_cluster_id" /\ ph = "store_mem")
                      \/ (o = "open" /\ ph = "reapply_last_ltx")
+                     \/ (o = "role_change" /\ ph = "follow_new_primary")
 
 VARIABLES op, target, kind, at,  \* the case: fault of this kind in phase number `at` (0 = none)
           pc,        \* next phase (Len+1 = finished)
@@ -93,6 +96,7 @@ Ph  == Phases(op)[pc]
 \* a refused cache notification is considered where LiteFS itself rewrites pages an application may have cached
 KindApplies(o, k) == /\ (k = "notify" => o \in {"recover", "halt", "import", "replica_apply", "replica_snapshot"})
                      /\ (k = "cut" => o \in {"replica_apply", "replica_snapshot"})
+                     /\ (k = "lease" <=> o = "role_change")   \* lease = a call to the lease service fails (renewal answered "expired")
 
 Init == /\ op \in Ops /\ target \in Targets /\ Applies(op, target) /\ kind \in Kinds /\ KindApplies(op, kind)
         /\ at \in 0..Len(Phases(op))
@@ -106,7 +110,7 @@ StepOK ==
   /\ result = "pending" /\ pc <= NPh /\ at # pc
   /\ lock' = (IF TakesLock(op) /\ pc = 1 THEN "held" ELSE IF pc = NPh /\ op # "halt" THEN "free" ELSE lock)
   /\ effect' = (effect \/ Publishing(op, Ph))
-  /\ hot' = (IF (op = "recover" /\ Ph = "remove_journal") \/ (op \in {"halt", "import", "open"} /\ Ph \in {"recover", "rollback_journal"}) THEN FALSE ELSE hot)
+  /\ hot' = (IF (op = "recover" /\ Ph = "remove_journal") \/ (op \in {"halt", "import", "open", "role_change"} /\ Ph \in {"recover", "rollback_journal"}) THEN FALSE ELSE hot)
   /\ pc' = pc + 1
   /\ result' = (IF pc = NPh THEN "ok" ELSE result)
   /\ UNCHANGED <<op, target, kind, at, mem, exited, retried>>
